@@ -419,8 +419,11 @@ class TokenizerHarness(Harness):
 
 register(TokenizerHarness())
 
-TOKENS = ["x", "<b>", "</b>", "<i>", "</i>", "<u>", "</u>", "<c.loud.red>", "<c.bg_blue.yellow>", "</c>", "<v Bob>", "</v>", "<lang en>", "</lang>",
-          "<ruby>", "</ruby>", "<rt>", "</rt>", "<00:00:01.500>", "y\nz", "&amp;", "&lt;", "<00:00:01>"]
+TOKENS_ALL = ["x", "<b>", "</b>", "<i>", "</i>", "<u>", "</u>", "<c.loud.red>", "<c.bg_blue.yellow>", "</c>", "<v Bob>", "</v>", "<lang en>", "</lang>",
+              "<ruby>", "</ruby>", "<rt>", "</rt>", "<00:00:01.500>", "y\nz", "&amp;", "&lt;", "<00:00:01>"]
+# quick tier: one representative per tag family (u/v/lang end tags and &lt; only in the thorough tier)
+TOKENS_QUICK = [t for t in TOKENS_ALL if t not in ("<u>", "</u>", "</v>", "</lang>", "&lt;")]
+TOKENS = TOKENS_ALL
 
 
 def ref_tree(seq, begin):
@@ -506,22 +509,23 @@ class CueTreeHarness(Harness):
                  "the text are asserted")
   outside = ("nesting deeper than the sequence bound", "class names other than red / bg_blue / yellow")
   required_witnesses = ("nested", "ruby", "timestamp", "entity")
-  bounds = {"quick": "all sequences of <= 4 tokens over a 23-entry menu (b i u c.class v lang ruby rt, end tags, inline timestamp, "
-                     "multi-line text, entities)", "thorough": "<= 5 tokens"}
+  bounds = {"quick": "all sequences of <= 4 tokens over an 18-entry menu (b i c.class v lang ruby rt, end tags, inline timestamp well- and "
+                     "ill-formed, multi-line text, entity)", "thorough": "<= 4 tokens over the full 23-entry menu (adds u, </v>, </lang>, &lt;)"}
   budget_s = {"quick": 280, "thorough": 1500}
   validate_models = 2
 
   def partitions(self, tier):
-    return [{"first": i} for i in range(len(TOKENS))]
+    return [{"first": i} for i in range(len(TOKENS_QUICK if tier == "quick" else TOKENS_ALL))]
 
   def body(self, ex, params):
-    n = 4 if ex.tier == "quick" else 5
-    seq = [TOKENS[params["first"]]]
+    n = 4
+    menu = TOKENS_QUICK if ex.tier == "quick" else TOKENS_ALL
+    seq = [menu[params["first"]]]
     for k in range(1, n):
-      c = ex.choice("tok%d" % k, len(TOKENS) + 1)
-      if c == len(TOKENS):
+      c = ex.choice("tok%d" % k, len(menu) + 1)
+      if c == len(menu):
         break
-      seq.append(TOKENS[c])
+      seq.append(menu[c])
     text = "".join(seq)
     doc = model.ContentDocument()
     body_, div_ = model.Body(doc), model.Div(doc)
@@ -542,7 +546,7 @@ class CueTreeHarness(Harness):
         if det.get("_ts_open"):
           det["end_tag_after_timestamp_in_open_tag"] = True
         depth = max(0, depth - 1)
-      elif tkn == "<00:00:01.500>":
+      elif tkn in ("<00:00:01.500>", "<00:00:01>"):
         if depth > 0:
           det["_ts_open"] = True
       elif tkn.startswith("<"):
